@@ -318,6 +318,12 @@ def d2_fields(chk, F):
             t = got.get(v, {}).get(fld, "")
             chk.expect(frag in t, "C19.D2-fields", f"extract_value|{v}.{fld}", f"{f.file}:{f.line}",
                        f"bindings Value::{v}.{fld} must come from the core value's {frag}; it is {t[:80] or 'missing'}", sample=f"Value::{v}.{fld} ← core {frag}")
+            if v in ("Number", "Range"):
+                # the amount exposed is the core number's full value (Number::value: whole + err + num/den), read directly
+                okv = t.startswith("Number::value(") and t.count("(") - t.count("as ") <= 3 and "Number::value" in t and not any(
+                    x in t for x in (" Div ", " Add ", " Mul ", "number_value", "::from("))
+                chk.expect(okv, "C19.D2-fields", f"extract_value|{v}.{fld}|Number::value", f"{f.file}:{f.line}",
+                           f"bindings Value::{v}.{fld} must be the core Number::value() of that field; it is {t[:90]}", sample=f"Value::{v}.{fld} = core.{fld}.value()")
 
 
 def d3_deref(chk, F):
